@@ -1,5 +1,5 @@
 (* Correspondence glue shared by C01, C03, C04, C05, C06, C16: the unstratified tests. *)
-From PV Require Import Lib.Base Model.Prng Model.Core.
+From PV Require Import Lib.Base Model.Prng Model.Core Model.Stratified Model.NoDist Model.NoDistStrat.
 Open Scope Q_scope.
 
 Definition rtol : Q := 1 # 1000000000000.
@@ -49,6 +49,17 @@ Definition check_out (o : result test_out) (t : tape) (impl : impl3) (consumed :
   | _, _ => false
   end.
 
+(* a run with keep_dist=False (no distribution returned) is ALSO compared with the model of the keep_dist=False code path *)
+Definition check_nodist (o : result (Q * Q * tape)) (t : tape) (impl : impl3) (consumed : nat) : bool :=
+  match impl with
+  | Ok (p, ts, None) =>
+      match o with
+      | Ok (mp, mts, t') => rel_close mp p && rel_close mts ts && Nat.eqb (used t t') consumed
+      | Err _ => false
+      end
+  | _ => true
+  end.
+
 Definition check_case (c : case) : bool :=
   match c with
   | TwoSample x y s a reps plus1 sh t impl rec consumed =>
@@ -57,6 +68,10 @@ Definition check_case (c : case) : bool :=
                | Some h => two_sample_shift x y s a reps plus1 h t
                end in
       check_out o t impl consumed
+      && match pot_of x y sh with
+         | Ok pot => check_nodist (two_sample_core_nodist s pot (length x) a reps plus1 t) t impl consumed
+         | Err _ => true
+         end
       && match o, pot_of x y sh with
          | Ok r, Ok pot => opt_check (fun l => list_eqb pair_eq (map (args2 pot (length x)) (arrs r)) l) rec
          | _, _ => true
@@ -64,6 +79,7 @@ Definition check_case (c : case) : bool :=
   | OneSample x y s a reps plus1 t impl rec consumed =>
       let o := one_sample x y s a reps plus1 t in
       check_out o t impl consumed
+      && check_nodist (one_sample_nodist x y s a reps plus1 t) t impl consumed
       && match o with
          | Ok r =>
              let z := match y with None => x | Some yy => map (fun p => fst p - snd p) (combine x yy) end in
@@ -78,6 +94,7 @@ Definition check_case (c : case) : bool :=
       | Err _ => false
       end
   | KSample x g s reps plus1 t impl rec consumed =>
+      check_nodist (k_sample_nodist x g s reps plus1 t) t impl consumed &&
       match k_sample x g s reps plus1 t, impl with
       | Ok (p, ts, d, ar, t'), Ok (ip, its, idist) =>
           rel_close p ip && rel_close ts its && opt_check (ql_close d) idist
